@@ -43,7 +43,7 @@ func isNSECompare(v ssa.Value, nse constant.Value) bool {
 		x, y = y, x
 	}
 	call, ok := x.(*ssa.Call)
-	if !ok || call.Common().StaticCallee() == nil || call.Common().StaticCallee().Name() != "GetIdempotencyLevel" {
+	if !ok || call.Common().StaticCallee() == nil || N(call.Common().StaticCallee()) != "GetIdempotencyLevel" {
 		return false
 	}
 	cst, ok := y.(*ssa.Const)
@@ -64,7 +64,7 @@ func isMethodCmp(v ssa.Value, verb string) (token.Token, bool) {
 		return 0, false
 	}
 	f := LoadedField(x)
-	if f == nil || f.Name() != "Method" || f.Pkg() == nil || f.Pkg().Path() != "net/http" {
+	if f == nil || N(f) != "Method" || f.Pkg() == nil || f.Pkg().Path() != "net/http" {
 		return 0, false
 	}
 	return b.Op, true
@@ -132,7 +132,7 @@ func runC19(c *Ctx) {
 	resolve := p.MustFunc("(*operation).resolveMethod")
 	var agCall ssa.Value
 	for _, call := range Calls(resolve) {
-		if call.Common().IsInvoke() && call.Common().Method.Name() == "allowsGetRequests" {
+		if call.Common().IsInvoke() && N(call.Common().Method) == "allowsGetRequests" {
 			agCall = call.Value()
 		}
 	}
@@ -340,7 +340,7 @@ func runC19(c *Ctx) {
 			for cond, truth := range cp.Truth {
 				if ex, ok := cond.(*ssa.Extract); ok && ex.Index == 1 && truth {
 					if ta, ok := ex.Tuple.(*ssa.TypeAssert); ok && ta.CommaOk && isNamed(ta.AssertedType, RootPath, "StableCodec") {
-						if f := LoadedField(ta.X); f != nil && f.Name() == "codec" && PathOfHasSide(ta.X, "server") {
+						if f := LoadedField(ta.X); f != nil && N(f) == "codec" && PathOfHasSide(ta.X, "server") {
 							okStable = true
 						}
 					}
@@ -357,7 +357,7 @@ func runC19(c *Ctx) {
 	// Request.Method stores
 	for _, fn := range p.Funcs {
 		for _, w := range FieldWrites(fn) {
-			if w.Field.Name() != "Method" || !isPtrTo(w.Base.Type(), "net/http", "Request") || w.Fresh {
+			if N(w.Field) != "Method" || !isPtrTo(w.Base.Type(), "net/http", "Request") || w.Fresh {
 				continue
 			}
 			ok := true
@@ -367,7 +367,7 @@ func runC19(c *Ctx) {
 					if s, _ := ConstString(l.V); s != "POST" {
 						ok = false
 					}
-				case l.Kind == "call" && l.Call.Common().IsInvoke() && l.Call.Common().Method.Name() == "requestLine" && l.Index == 2:
+				case l.Kind == "call" && l.Call.Common().IsInvoke() && N(l.Call.Common().Method) == "requestLine" && l.Index == 2:
 				default:
 					ok = false
 				}
@@ -406,7 +406,7 @@ func runC19(c *Ctx) {
 				continue
 			}
 			for _, l := range p.OriginsInter(f.Cond) {
-				if l.Kind == "call" && l.Call.Common().IsInvoke() && l.Call.Common().Method.Name() == "requestLine" && l.Index == 3 {
+				if l.Kind == "call" && l.Call.Common().IsInvoke() && N(l.Call.Common().Method) == "requestLine" && l.Index == 3 {
 					for _, op := range l.Ops {
 						if op == token.NOT {
 							ok = true
@@ -486,7 +486,7 @@ func runC19(c *Ctx) {
 			for _, l := range Origins(w.Store.Val) {
 				switch {
 				case l.Kind == "call" && IsCallTo(l.Call, "(*net/url.URL).Query"):
-				case l.Kind == "call" && l.Call.Common().StaticCallee() != nil && l.Call.Common().StaticCallee().Name() == "classifyRequest":
+				case l.Kind == "call" && l.Call.Common().StaticCallee() != nil && N(l.Call.Common().StaticCallee()) == "classifyRequest":
 				case l.Kind == "param" || l.Kind == "nil" || (l.Kind == "load" && l.Field == qvF):
 				default:
 					okW = false
